@@ -669,6 +669,8 @@ impl Harness for P2 {
                 v.push((P2Ev::UdpToResolved, 0));
                 v.push((P2Ev::UdpTwoToResolved, 0));
                 v.push((P2Ev::IcmpTwoToV4, 0));
+                // the name server is an IPv4 host: no source address for the query
+                v.push((P2Ev::DnsQuery, 0));
             }
             v.push((P2Ev::RawTwoWrongProto, 0));
             match self.sockets.get::<tcp::Socket>(self.tcp).state() {
